@@ -81,6 +81,8 @@ type treePlan struct {
 	orderCap  int // max orders enumerated per tree
 	randOrder int // serial runs with random order for trees that are too big to enumerate
 	freeRuns  int
+	nShaped   int // shaped schedules (see shapedSpec)
+	nStress   int // unshaped fan-outs with one failing stage
 }
 
 func newTreePlan(seed int64, quick bool) *treePlan {
@@ -92,6 +94,7 @@ func newTreePlan(seed int64, quick bool) *treePlan {
 		p.orderCap = 24
 		p.randOrder = 2
 		p.freeRuns = 1
+		p.nShaped, p.nStress = 500, 1500
 	} else {
 		p.sys = systematicSpecs(4, []string{oOK, oErr, oPanicStr, oNFIgnored, oCompletePanic})
 		p.nRandom = 220_000
@@ -99,18 +102,27 @@ func newTreePlan(seed int64, quick bool) *treePlan {
 		p.orderCap = 120
 		p.randOrder = 3
 		p.freeRuns = 2
+		p.nShaped, p.nStress = 20_000, 100_000
 	}
 	return p
 }
 
-func (p *treePlan) items() int { return len(p.sys) + p.nRandom }
+func (p *treePlan) items() int { return len(p.sys) + p.nRandom + p.nShaped + p.nStress }
 
 func (p *treePlan) spec(i int) (*treeSpec, *randSrc) {
 	r := newRandSrc(p.seed*7919 + int64(i)*104729 + 17)
 	if i < len(p.sys) {
 		return p.sys[i], r
 	}
-	return randomSpec(rand.New(rand.NewSource(p.seed*1000003+int64(i)*7919+424243)), p.lim), r
+	rr := rand.New(rand.NewSource(p.seed*1000003 + int64(i)*7919 + 424243))
+	switch k := i - len(p.sys) - p.nRandom; {
+	case k < 0:
+		return randomSpec(rr, p.lim), r
+	case k < p.nShaped:
+		return shapedSpec(rr), r
+	default:
+		return stressSpec(rr), r
+	}
 }
 
 // gatedStages counts the stages that will park at a gate in serial mode.
@@ -176,6 +188,30 @@ func (p *treePlan) runItem(i int, slot string, race bool, a *agg, logf func(stri
 				return map[string]interface{}{"item": i, "tree": canon, "case": out}
 			})
 		}
+	}
+	if k := i - len(p.sys) - p.nRandom; k >= 0 {
+		// shaped schedules and the unshaped stress only make sense with real concurrency
+		shaped := k < p.nShaped
+		runs := 1
+		if shaped {
+			runs = 2
+		}
+		for n := 0; n < runs; n++ {
+			sd := int64(r.next() >> 1)
+			mw := []int{2, 4, 16}[r.intn(3)]
+			if shaped {
+				mw = 16 // the holder waits for the failing stage under the state machine's mutex: that stage needs a free worker
+			}
+			logf(fmt.Sprintf("item %d free seed=%d workers=%d shaped=%v", i, sd, mw, shaped))
+			out := runCase(spec, runOpts{Mode: "free", RandSeed: sd, MaxWorkers: mw, Slot: slot, CancelAt: -1, NoDelay: true})
+			if shaped {
+				a.count("runs_shaped_failing_stage_queues_on_state_machine", 1)
+			} else {
+				a.count("runs_unshaped_fanout_stress", 1)
+			}
+			report(out)
+		}
+		return
 	}
 	sysItem := i < len(p.sys)
 	gated := gatedStages(spec)
